@@ -234,3 +234,23 @@ macro_rules! c03_w128 {
         });
     };
 }
+
+/// unsigned / and %: dividend fully symbolic, divisor digits over the boundary alphabet (keeps the postcondition
+/// multiplier narrow while every q-hat correction / add-back case for those divisors is inside the bound)
+#[macro_export]
+macro_rules! c03_u_semi {
+    ($name:ident, $unw:expr, $U:ty, $D:ty, $N:expr, $X:ty) => {
+        $crate::harness!($name, $unw, {
+            use $crate::util::*;
+            let (a, ad) = <$U as BN<$D, $N>>::any();
+            let (b, bd) = <$U as BN<$D, $N>>::any_alpha();
+            $crate::nd::assume(!dzero(&bd));
+            let (n, d) = (dval_u128(&ad) as $X, dval_u128(&bd) as $X);
+            let q = dval_u128(&(a / b).dg()) as $X;
+            let r = dval_u128(&(a % b).dg()) as $X;
+            assert!(r < d, "remainder below the divisor");
+            assert!(q <= n && q * d + r == n, "n == q * d + r");
+            $crate::reach!(q > 255 && r != 0 && bd[1] != 0, "multi-digit quotient with a multi-digit divisor");
+        });
+    };
+}
